@@ -461,6 +461,7 @@ def cyclic_definition(text):
     label -> names in the operands of the size-bearing directives before it ('.' likewise)."""
     m = mods()
     graph = {}
+    tree = None
     try:
         col = []
         with watchdog(3.0):     # the parser itself may be what hangs or crashes: the classifier then works line-wise
@@ -470,15 +471,13 @@ def cyclic_definition(text):
                 except m["reports"].UnrecoverableError:
                     tree = None
     except (Exception, Hang):
-        tree = None
+        pass                    # (leaving handle_reports raises when an error was reported: the tree is still good)
     if tree is not None:
         _walk(tree.body, graph, set(), None)
     else:
-        # the parser gave up: line-wise fallback on 'name = expr'
-        for ln in text.split("\n"):
-            mm = re.match(r"\s*([A-Za-z_$][\w$.]*)\s*==?\s*(.*)", ln)
-            if mm:
-                graph.setdefault(mm.group(1).lower(), set()).update(x.lower() for x in re.findall(r"[A-Za-z_$][\w$.]*", mm.group(2)))
+        # the parser gave up: fallback on every 'name = expr' found in the text
+        for mm in re.finditer(r"([A-Za-z_$][\w$.]*)\s*==?\s*([^\n]*)", text):
+            graph.setdefault(mm.group(1).lower(), set()).update(x.lower() for x in re.findall(r"[A-Za-z_$][\w$.]*", mm.group(2)))
     # cycle search
     WHITE, GREY, BLACK = 0, 1, 2
     col = {}
